@@ -1,6 +1,7 @@
 import AtreeModel.Dump
 import AtreeModel.StorageOps
 import AtreeModel.Replay.Common
+import AtreeModel.Verify.Corrupt
 /-
   Replays the array stream of the harness on the model and compares every observation,
   net storage effect, stored-slab dump and periodic full-tree dump with the implementation's.
@@ -19,6 +20,8 @@ structure ArrState where
   store : St String String := St.init
   snapArrs : AList Nat Arr := []
   snapAux : AList SlabID Elem := []
+  -- verifybad stream: the array as it was before the `BAD` lines of the current experiment
+  saved : AList Nat Arr := []
 
 /-- slabs and registers are their canonical dumps; encoding and decoding are the identity -/
 def dumpCodec : Codec String String := { enc := some, dec := fun _ b => some b, size := fun _ => 0 }
@@ -175,6 +178,44 @@ def stepLine (s : ArrState) (line : String) (lineNo : Nat) : ArrState :=
       let s := { s with rep := { s.rep with compared := s.rep.compared + 1 } }
       if mine == theirs then s
       else s.note s!"line {lineNo}: FULL differs\n  model: {mine}\n  impl : {theirs}"
+  | "BAD" :: rest =>
+    -- one field of one slab overwritten on the implementation side (verifybad stream)
+    let fs := fields rest
+    let h := (fnat fs "h").getD 0
+    match AList.find? s.arrs h, (fget fs "id").bind parseID with
+    | some a, some id =>
+      let nid := ((fget fs "nid").bind parseID).getD SlabID.undef
+      match Verify.corrupt a id ((fget fs "f").getD "") ((fnat fs "i").getD 0) ((fnat fs "v").getD 0) nid with
+      | some a' =>
+        { s with arrs := AList.insert s.arrs h a',
+                 saved := if AList.contains s.saved h then s.saved else AList.insert s.saved h a }
+      | none => s.note s!"line {lineNo}: unknown corruption {line}"
+    | _, _ => s.note s!"line {lineNo}: BAD for unknown handle / without slab id"
+  | "UNDO" :: rest =>
+    let h := (fnat (fields rest) "h").getD 0
+    match AList.find? s.saved h with
+    | some a => { s with arrs := AList.insert s.arrs h a, saved := AList.erase s.saved h }
+    | none => s
+  | "VFY" :: rest =>
+    -- the Go verifier's verdict on the container (`VerifyArray`), to be matched by the model's
+    -- transcription of it on the replayed tree
+    let fs := fields rest
+    let h := (fnat fs "h").getD 0
+    match AList.find? s.arrs h with
+    | none => s.note s!"line {lineNo}: VFY for unknown handle"
+    | some a =>
+      -- storage keys are those of the uncorrupted tree (overwriting a header field does not move a slab)
+      let base := (AList.find? s.saved h).getD a
+      let gone := (fget fs "nostore").bind parseID
+      let v : Verify.AVerifier :=
+        { T := s.T, address := (fnat fs "addr").getD base.addr,
+          inStorage := fun id => (ATree.slabIds base.d base.root).any (fun x => decide (x = id)) &&
+                                 !(decide (gone = some id)) }
+      let mine := Verify.renderResult (Verify.verifyArray v (fnat fs "ty") a)
+      let theirs := (fget fs "r").getD "?"
+      let s := { s with rep := ({ s.rep with compared := s.rep.compared + 1 }).tag ("vfy:" ++ mine) }
+      if mine == theirs then s
+      else s.note s!"line {lineNo}: verifier verdicts differ\n  model: {mine}\n  impl : {theirs}"
   | kind :: _ =>
     if kind == "OBS" || kind == "EFF" || kind == "SLB" || kind == "LOG" || kind == "REG" || kind == "ENDREG" then
       match s.pending with
